@@ -246,6 +246,18 @@ def channels():
     add(Ch('in.item.prefix', 'in-item',
            '<dtml-in @Q@ prefix=row skip_unauthorized>[<dtml-var row_item>:<dtml-var row_index>]</dtml-in>',
            kinds=('pub', 'den'), expect=['[obj(i0):0]'], cfgs=X))
+    # the same inside <dtml-with ... only>: the body renders into a NEW namespace, which must carry the guards
+    add(Ch('in.item.with-only', 'in-item',
+           '<dtml-with expr="{\'q\': @Q@}" mapping only><dtml-in q>[<dtml-var tag>]</dtml-in></dtml-with>',
+           kinds=('pub', 'den'), expect=['[i0][i1][i2]'], cfgs=X))
+    add(Ch('in.item.with-only.skip', 'in-item',
+           '<dtml-with expr="{\'q\': @Q@}" mapping only><dtml-in q skip_unauthorized>'
+           '[<dtml-var tag>:<dtml-var sequence-item>]</dtml-in></dtml-with>',
+           kinds=('pub', 'den'), expect=['[i0:obj(i0)]'], cfgs=X))
+    add(Ch('in.item.with-only.batch.skip', 'in-item',
+           '<dtml-with expr="{\'q\': @Q@}" mapping only><dtml-in q size=@n1@ start=1 skip_unauthorized>'
+           '[<dtml-var tag>:<dtml-var sequence-item>]</dtml-in></dtml-with>',
+           kinds=('pub', 'den'), expect=['[i0:obj(i0)]'], cfgs=X))
     add(Ch('in.item.index-item.prev', 'seqvar-item',
            '<dtml-in @PQ@ size=1 start=@pa@ overlap=0>[<dtml-var previous-sequence-start-item>]</dtml-in>',
            kinds=('pub', 'den'), cfgs=X, needs=lambda p: p['hi'] + 2 <= p['n']))
